@@ -244,12 +244,21 @@ func runC12(t *testing.T, rc *core.RunCtx) {
 	}
 	// feeder program for the network machine: successive clocks
 	var feed []am.Time
+	var feedQ []uint64
 	if target == "netmach" {
 		cur := make(am.Time, len(all))
+		q := uint64(0)
 		for i := 0; i < tp.Range(3, 10); i++ {
 			cur = append(am.Time{}, cur...)
 			cur[tp.Draw(len(cur))] += uint64(1 + tp.Draw(2))
 			feed = append(feed, cur)
+			// queue ticks grow, and now and then start over (a restarted
+			// source)
+			q += uint64(tp.Draw(4))
+			if tp.Draw(4) == 0 {
+				q /= 3
+			}
+			feedQ = append(feedQ, q)
 		}
 	}
 	rc.Desc = fmt.Sprintf("target=%s park=%v detach=%s faultEvery=%d states=%v programs=%v feed=%d", target, park, env.bindingId, faultEvery, names, descs, len(feed))
@@ -311,11 +320,11 @@ func runC12(t *testing.T, rc *core.RunCtx) {
 			nmInt = internal
 			recv = reflect.ValueOf(nm)
 			s.Go("feeder", func() {
-				for _, tm := range feed {
+				for i, tm := range feed {
 					// the clock lock is taken by the caller and released by
 					// updateClock itself, as the RPC client does it
 					nmInt.Lock()
-					nmInt.UpdateClock(tm, 0, 0)
+					nmInt.UpdateClock(tm, feedQ[i], 0)
 					s.Op()
 				}
 			})
